@@ -123,7 +123,7 @@ Definition spec_expected (cf : config) (a_answer : list rr) : list (list N * lis
       | RA owner _ ip =>
           match to4 ip with
           | Some v4 =>
-              if spec_wkp p && spec_excluded_a c v4 then []
+              if spec_wkp p && spec_excluded_a cf v4 then []
               else match spec_embed p v4 with Some e => [(owner, e)] | None => [] end
           | None => []
           end
@@ -137,7 +137,7 @@ Definition ptr_candidates (cf : config) (addr : list N) : list (list N) :=
   flat_map (fun p =>
     match spec_unembed p addr with
     | Some v4 =>
-        if opt_eqb list_eqb (spec_embed p v4) (Some addr) && negb (spec_wkp p && spec_excluded_a c v4)
+        if opt_eqb list_eqb (spec_embed p v4) (Some addr) && negb (spec_wkp p && spec_excluded_a cf v4)
         then [v4] else []
     | None => []
     end) (spec_prefixes cf).
